@@ -1,3 +1,19 @@
 add("C01", "H", "explicit-state BFS over API histories of the real Traph (bounded depth, exhaustive), lock-step reference model",
     "Every history up to the stated depth over a colliding alphabet (pages, batches, link/crawl batches, webentity and rule edits, all insertion orders of short and multi-block stems) is executed on the real index; page enumeration, counts and write reports are compared with a dict model in every state and on every transition.",
     "DESIGN.md 6/C01")
+
+add("C03", "H", "explicit-state BFS over API histories of the real Traph (bounded depth, exhaustive), lock-step reference model",
+    "Every history up to the stated depth over all link/crawl batch shapes (repeated, self, both directions, source-and-target, empty target lists, long stems) interleaved with page/webentity/rule writes; in every state the links of every page under all 8 switch settings, the degrees, both link enumerations, the global count and the raw link store are compared with a Counter of submissions.",
+    "DESIGN.md 6/C03")
+
+add("C02", "H", "explicit-state BFS over insertion histories of the real Traph (bounded depth, exhaustive) + independent raw decoder of the trie file",
+    "Every insertion history up to the stated depth over multi-block stems (lengths around every 74-byte multiple, low/high byte values, two levels, all sibling insertion orders) and short stems; in every state top-down lookup, bottom-up reconstruction and full traversal are compared on every named stem-prefix and on near-miss probes, and an independent decoder checks the ternary-search-tree invariants on the raw bytes.",
+    "DESIGN.md 6/C02")
+
+add("C19", "H", "explicit-state BFS over API histories of the real Traph (bounded depth, exhaustive), block-count formula + independent raw decoder",
+    "Every history up to the stated depth over stems of every length class (1 block, 75..148, exact multiples of 74, 3 blocks) and over re-submissions of known pages, prefixes and rule anchors; in every state both store sizes are compared with the closed-form count, the raw decoder checks that no block or stub is unreferenced, and metrics() is compared with the same figures.",
+    "DESIGN.md 6/C19")
+
+add("C04", "H", "explicit-state BFS over API histories of the real Traph (bounded depth, exhaustive), lock-step reference model",
+    "Every history up to the stated depth over creations, deletions (full, partial, wrong id), prefix additions, removals and moves (no / right / wrong id) on nested and sibling prefixes, plus automatic creations; in every state the attached-prefix map and the resolution of 22 probe LRUs (stored, partially stored, absent, diverging left/right) are compared with longest-prefix match on a dict, and every refusal is checked on every transition.",
+    "DESIGN.md 6/C04")
